@@ -291,6 +291,13 @@ def _atoms(c, truth):
         yield c, truth
 
 
+def _payload(t):
+    """`Some(x)` / `Ok(x)` compared with an Option/Result value: the comparison is about the payload (None never equals Some(_))"""
+    while isinstance(t, tuple) and t and t[0] == "call" and t[1] in ("core::option::Option::Some", "core::result::Result::Ok") and len(t[2]) == 1 and t[3] is None:
+        t = t[2][0]
+    return t
+
+
 def _pat_top(p):
     """(kind, payload) of a pattern's top constructor: ('lit', n) | ('ctor', path) | ('any', None)"""
     while p is not None and p["k"] in ("RefPat", "GuardPat"):
@@ -311,6 +318,22 @@ def _pat_top(p):
     return ("any", None)
 
 
+def _tuple_pat_facts(pat, v):
+    """`match (a, b) { (0, Some(p)) => .. }`: component-wise facts of a tuple pattern against a tuple value"""
+    out = []
+    while pat is not None and pat.get("k") in ("RefPat", "GuardPat"):
+        pat = pat["pat"]
+    if pat is None or pat.get("k") != "Tuple" or not (isinstance(v, tuple) and v and v[0] == "tup"):
+        return out
+    for sp, comp in zip(pat["pats"], v[1]):
+        kind, pay = _pat_top(sp)
+        if kind == "lit":
+            out.append(("eq", comp, pay))
+        elif kind == "ctor":
+            out.append(("variant", comp, pay, True))
+    return out
+
+
 def decision_facts(d):
     """facts that hold after decision event d, as tuples:
          ('eq', term, n) ('ne', term, n)           comparisons with an integer constant
@@ -328,7 +351,7 @@ def decision_facts(d):
                 op = c[1]
                 if not pol:
                     op = {"==": "!=", "!=": "==", "<": ">=", "<=": ">", ">": "<=", ">=": "<"}[op]
-                l, r = c[2], c[3]
+                l, r = _payload(c[2]), _payload(c[3])
                 out.append(("rel", op, l, r))
                 for a, b, o in ((l, r, op), (r, l, {"<": ">", "<=": ">=", ">": "<", ">=": "<="}.get(op, op))):
                     if b[0] == "c":
@@ -365,6 +388,7 @@ def decision_facts(d):
             out.append(("eq", v, pay))
         elif kind == "ctor":
             out.append(("variant", v, pay, True))
+        out.extend(_tuple_pat_facts(d.d.get("pat"), v))
         for a in arms[:i]:
             if a.get("guard") is not None:
                 continue
